@@ -288,7 +288,12 @@ def snapshot(section):
 
 
 def snap_eq(a, b):
-    """Type-strict structural equality of snapshots."""
+    """Type-strict structural equality of snapshots (all mappings count as
+    one type: a dict subclass a caller put in stays what it is)."""
+    if isinstance(a, dict) and isinstance(b, dict):
+        return (set(a) == set(b) and
+                all(snap_eq(a[k], b[k]) for k in a))
+
     if type(a) is not type(b):
         return False
 
@@ -307,7 +312,8 @@ def snap_eq(a, b):
 
 def snap_diff(a, b, path='root'):
     """First difference between two snapshots, for messages."""
-    if type(a) is not type(b):
+    if type(a) is not type(b) and not (isinstance(a, dict) and
+                                       isinstance(b, dict)):
         return '%s: %r vs %r' % (path, _short(a), _short(b))
 
     if isinstance(a, (list, tuple)):
